@@ -1,6 +1,8 @@
-(* C20 — relay tools forward every record exactly.  Property theorems only. *)
-From Coq Require Import List NArith.
+(* C20 — relay tools forward every record exactly and acknowledge only on success.
+   Property theorems only. *)
+From Coq Require Import List NArith Bool String.
 From NSQV Require Import model.Judge model.Relay proofs.RelayProofs.
+From NSQV Require Import gen.RelayCfg model.RelayAck proofs.RelayAckProofs.
 Import ListNotations.
 Open Scope N_scope.
 
@@ -31,4 +33,102 @@ Print Assumptions C20_to_nsq_roundtrip.
 Example C20_witness_unterminated :
   to_nsq_records 10 [111;110;101;10;116;119;111;10;97;98]
   = Some [[111;110;101];[116;119;111];[97;98]].
+Proof. vm_compute. reflexivity. Qed.
+
+(* ======================= nsq_to_nsq / nsq_to_http ======================= *)
+Open Scope nat_scope.
+
+(* For every tool (nsq_to_nsq, nsq_to_http POST / GET), every mode (all, round-robin,
+   hostpool/epsilon-greedy with any choice sequence), every number of destinations >= 1,
+   every destination behaviour stream (accept / reject / close / refuse / any status), every
+   source message list and any number of deliveries, with max_attempts = 0: the trace
+   satisfies the acknowledgement rule [ack_ok]: a message is finished only after requests
+   carrying exactly its body were all accepted (one per destination in mode all), and it is
+   requeued exactly when its last request was not accepted. *)
+Theorem C20_finish_only_on_success : forall c e msgs fuel, 0 < ndest c -> max_attempts c = 0 ->
+  ack_ok c [] (rtr (relay fuel c e (rinit msgs))) = true.
+Proof. exact finish_only_on_success. Qed.
+Print Assumptions C20_finish_only_on_success.
+
+(* The same statement for the configuration the tools really run with (the client
+   library's default max_attempts, read from the go-nsq source the repository builds
+   against, which neither tool overrides) is FALSE: known finding K7. *)
+Definition C20_finish_only_on_success_full : Prop := ack_full.
+Theorem C20_finish_only_on_success_refuted : ~ C20_finish_only_on_success_full.
+Proof. exact ack_full_refuted. Qed.
+Print Assumptions C20_finish_only_on_success_refuted.
+
+(* ... and it holds outside the finding: on every run in which no message is requeued
+   max_attempts times, *)
+Theorem C20_finish_only_on_success_holds_outside : forall c e msgs fuel, 0 < ndest c ->
+  (forall m, nreq m (rtr (relay fuel c e (rinit msgs))) < max_attempts c) ->
+  ack_ok c [] (rtr (relay fuel c e (rinit msgs))) = true.
+Proof. exact finish_only_on_success_holds_outside. Qed.
+Print Assumptions C20_finish_only_on_success_holds_outside.
+
+(* ... every finish that is not a give-up of the client library obeys the rule, *)
+Theorem C20_finish_only_on_success_outside : forall c e msgs fuel, 0 < ndest c ->
+  ack_ok_outside c [] (rtr (relay fuel c e (rinit msgs))) = true.
+Proof. exact finish_only_on_success_outside. Qed.
+Print Assumptions C20_finish_only_on_success_outside.
+
+(* ... and a give-up happens only after max_attempts requeues of that message. *)
+Theorem C20_giveup_needs_failures : forall c e msgs fuel m,
+  In (EGiveUp m) (rtr (relay fuel c e (rinit msgs))) ->
+  0 < max_attempts c /\ max_attempts c <= nreq m (rtr (relay fuel c e (rinit msgs))).
+Proof. exact giveup_needs_failures. Qed.
+Print Assumptions C20_giveup_needs_failures.
+
+(* what the rule means for one finish (no filter, no sampling): it is directly preceded by
+   an accepted request carrying exactly the message's body *)
+Theorem C20_fin_has_accepted_publish : forall c e msgs fuel pre m post, 0 < ndest c -> plain c = true ->
+  rtr (relay fuel c e (rinit msgs)) = pre ++ EFin m :: post ->
+  exists pre1 d a pre2,
+    pre = pre1 ++ EPub d (snd m) a :: pre2 /\ accepted (tool_ c) a = true /\
+    forallb (pub_ok (tool_ c) (snd m)) pre2 = true.
+Proof. exact fin_has_accepted_publish. Qed.
+Print Assumptions C20_fin_has_accepted_publish.
+
+(* at-least-once: if from some request on the destination accepts (and the source
+   redelivers requeued messages: property C01, modelled by the queue), then with
+   max_attempts = 0 after N + |msgs| deliveries nothing is owed, every message has been
+   finished and a request carrying exactly its body was accepted *)
+Theorem C20_eventual : forall c e msgs N,
+  filter c = None -> 0 < ndest c -> max_attempts c = 0 ->
+  (forall k, N <= k -> accepted (tool_ c) (oracle e k) = true) ->
+  let s := relay (N + List.length msgs) c e (rinit msgs) in
+  queue s = [] /\ forall m, In m msgs -> delivered c (rtr s) m.
+Proof. exact eventual. Qed.
+Print Assumptions C20_eventual.
+
+(* tie to the source (regenerated tables): the tools do not override max_attempts, and the
+   status tests of PostPublisher / GetPublisher are the ones the model transcribes *)
+Theorem C20_tools_use_library_default :
+  nsq_to_nsq_assigns_max_attempts = false /\ nsq_to_http_assigns_max_attempts = false /\
+  0 < go_nsq_default_max_attempts.
+Proof. exact tools_use_library_default. Qed.
+Print Assumptions C20_tools_use_library_default.
+
+Theorem C20_status_tests_as_modelled :
+  post_error_test = "resp.StatusCode < 200 || resp.StatusCode >= 300"%string /\
+  get_error_test = "resp.StatusCode != 200"%string.
+Proof. exact status_tests_as_modelled. Qed.
+Print Assumptions C20_status_tests_as_modelled.
+
+(* non-vacuity: a flapping destination (500, 500, then 200s), two messages, POST round-robin *)
+Example C20_ex_flapping :
+  let c := mkRcfg HttpPost MRoundRobin 1 None false 0 in
+  let e := mkEnv (fun k => if Nat.ltb k 2 then AStatus 500 else AStatus 200) (fun _ => 0) (fun _ => false) in
+  let s := relay 4 c e (rinit [(1%N, [97%N]); (2%N, [98%N])]) in
+  queue s = [] /\
+  rtr s = [EPub 0 [97%N] (AStatus 500); EReq (1%N, [97%N]); EPub 0 [98%N] (AStatus 500); EReq (2%N, [98%N]);
+           EPub 0 [97%N] (AStatus 200); EFin (1%N, [97%N]); EPub 0 [98%N] (AStatus 200); EFin (2%N, [98%N])].
+Proof. vm_compute. split; reflexivity. Qed.
+
+(* the witness of K7 in the model: five rejections, then the message is given up *)
+Example C20_ex_giveup :
+  rtr (relay 6 (tool_cfg HttpPost MRoundRobin 1) (kf_env HttpPost) (rinit [kf_msg]))
+  = [EPub 0 [109%N] (AStatus 500); EReq kf_msg; EPub 0 [109%N] (AStatus 500); EReq kf_msg;
+     EPub 0 [109%N] (AStatus 500); EReq kf_msg; EPub 0 [109%N] (AStatus 500); EReq kf_msg;
+     EPub 0 [109%N] (AStatus 500); EReq kf_msg; EGiveUp kf_msg].
 Proof. vm_compute. reflexivity. Qed.
